@@ -77,6 +77,8 @@ def frames_for(seed):
     fc_vals = np.array([2499.98, 2500.0, 2500.02, 0.5, 0.500001])
     df["fc"] = fc_vals[np.arange(n) % 5][rng.permutation(n)]
     new["fc"] = fc_vals[1 + np.arange(m2) % 4]  # lacks the smallest training value... of the large ones
+    df["bl"] = np.arange(n) % 3 == 0
+    new["bl"] = np.arange(m2) % 2 == 1
     # the same strings as categorical dtypes whose declared order is not the sorted one
     decl = sorted(s_lv, reverse=True)
     for d in (df, new):
@@ -103,13 +105,15 @@ def judge(case, m):
         decoys = {"p": 0.5, "T": 10, "I": np.eye(2), "B": (lambda *a, **k: None), "offset": 3, "binary": "b", "prop": None,
                   "proportion": 1, "S": [1], "C": {}, "standardize": 0, "scale": 1.0, "Treatment": 2, "Sum": sum, "center": "c"}
 
+    n_const = int(max(df["succ"].max(), new["succ"].max())) + 2
+
     def build(text):
-        return formulae.design_matrices(text, df, extra_namespace=dict(decoys))
+        return formulae.design_matrices(text, df, extra_namespace={**decoys, "rate": 2.5, "n_const": n_const})
 
     # ---- binary / B -------------------------------------------------------------------------
     for fn in ("binary", "B"):
         for colname, values in (("s", sorted(set(df["s"]))), ("e", sorted(set(df["e"].tolist()))), ("k", sorted(set(df["k"].tolist()))),
-                                ("sc", sorted(set(df["s"]))), ("so", sorted(set(df["s"]))), ("fc", sorted(set(df["fc"].tolist())))):
+                                ("sc", sorted(set(df["s"]))), ("so", sorted(set(df["s"]))), ("fc", sorted(set(df["fc"].tolist()))), ("bl", [False, True])):
             choices = [None] + list(values)
             for succ in rng.sample(choices, min(3, len(choices))) + ([0] if colname in ("e", "k") else [""] if "" in values else []):
                 lit = "" if succ is None else (", " + (repr(succ) if not isinstance(succ, str) else "'" + succ + "'"))
@@ -157,6 +161,7 @@ def judge(case, m):
     offs = [("offset(x)", lambda d: d["x"].to_numpy(dtype=float)), ("offset(e)", lambda d: d["e"].to_numpy(dtype=float)),
             ("offset(np.log(w))", lambda d: np.log(d["w"].to_numpy(dtype=float))), ("offset(2 * e)", lambda d: 2 * d["e"].to_numpy(dtype=float)),
             ("offset(e + k)", lambda d: d["e"].to_numpy(dtype=float) + d["k"].to_numpy(dtype=float)),
+            ("offset(x * rate)", lambda d: d["x"].to_numpy(dtype=float) * 2.5), ("offset(rate)", lambda d: np.full(len(d), 2.5)),
             ("offset(3)", lambda d: np.full(len(d), 3.0)), ("offset(2.5)", lambda d: np.full(len(d), 2.5)), ("offset(0)", lambda d: np.zeros(len(d)))]
     for term, fn in offs:
         c = {**case, "text": "y ~ x + " + term}
@@ -184,7 +189,8 @@ def judge(case, m):
     const = int(max(df["succ"].max(), new["succ"].max())) + 2
     results = {}
     for fn in ("prop", "p", "proportion"):
-        for trials, tfun in (("tr", lambda d: d["tr"].to_numpy(dtype=float)), (str(const), lambda d: np.full(len(d), float(const)))):
+        for trials, tfun in (("tr", lambda d: d["tr"].to_numpy(dtype=float)), (str(const), lambda d: np.full(len(d), float(const))),
+                             ("n_const", lambda d: np.full(len(d), float(const)))):  # the constant given by a name in scope
             text = f"{fn}(succ, {trials}) ~ x"
             c = {**case, "text": text}
             m.ev("proportion-validated")
@@ -208,6 +214,16 @@ def judge(case, m):
     bad["tr_near"] = bad["tr"] * 100 + 500 + 0.004
     bad["tr_far"] = bad["tr"] * 100 + 1000
     # unsigned dtypes: successes above trials must be refused there too (no wrap-around)
+    # whole numbers stored as floats (a count column that once held a missing value) are valid counts
+    fl = df.copy()
+    fl["succ"], fl["tr"] = fl["succ"].astype(float), fl["tr"].astype(float)
+    m.ev("proportion-validated")
+    try:
+        R = np.asarray(formulae.design_matrices("prop(succ, tr) ~ x", fl).response.design_matrix, dtype=float)
+        if not np.array_equal(R[:, 0], df["succ"].to_numpy(dtype=float)) or not np.array_equal(R[:, 1], df["tr"].to_numpy(dtype=float)):
+            m.violation("proportion-validated", "float columns holding whole numbers: response is not (successes, trials)", case=case, key="prop:training")
+    except Exception as e:
+        m.violation("proportion-validated", f"whole numbers in float columns refused: {type(e).__name__}: {e}", case=case, key="prop:raises")
     for dt in ("uint8", "uint32", "uint64"):
         ub = df.copy()
         ub["tr"] = ub["tr"].astype(dt)
